@@ -28,6 +28,7 @@ type c05Lease struct {
 	expired  bool // its expiry was moved into the past
 	lastTTL  time.Duration
 	expireAt time.Time // bound derived from the last response
+	period   time.Duration // periodic token: every granted TTL is at most the period
 }
 
 type c05World struct {
@@ -56,6 +57,8 @@ func newC05World(t *testing.T, transactional, ha bool) *c05World {
 	tc.mustOK(tc.req(logical.UpdateOperation, "sys/auth/token/tune", tc.root, map[string]any{"max_lease_ttl": "3h", "default_lease_ttl": "1h"}), "tune")
 	tc.writePolicy("c05", `path "rb/*" { capabilities = ["create","read","update","delete","list"] }
 path "sys/leases/*" { capabilities = ["update"] }`)
+	tc.mustOK(tc.req(logical.UpdateOperation, "auth/token/roles/c05max", tc.root, map[string]any{"token_explicit_max_ttl": "40m", "allowed_policies": "default", "orphan": true}), "role c05max")
+	tc.mustOK(tc.req(logical.UpdateOperation, "auth/token/roles/c05per", tc.root, map[string]any{"token_period": "30m", "token_explicit_max_ttl": "80m", "allowed_policies": "default", "orphan": true}), "role c05per")
 	w := &c05World{t: t, tc: tc, hub: hub}
 	w.tok, _, _ = tc.createToken(tc.root, map[string]any{"policies": []string{"default", "c05"}, "no_parent": true, "ttl": "150m"})
 	if w.tok == "" {
@@ -152,6 +155,9 @@ func TestVerif_C05_Leases(t *testing.T) {
 			if ttl <= 0 {
 				return
 			}
+			if l.period > 0 && ttl > l.period+2*time.Second {
+				fail("periodic-ttl-above-period", fmt.Sprintf("%s of periodic lease %s granted ttl %v, above its period %v", what, verifx.Trunc(l.id, 40), ttl, l.period))
+			}
 			if exp := now.Add(ttl); exp.After(l.issue.Add(l.effMax).Add(2 * time.Second)) {
 				fail("expiry-beyond-maximum", fmt.Sprintf("%s of lease %s granted ttl %v at +%v after issue: expiry %v after issue exceeds the effective maximum %v", what, verifx.Trunc(l.id, 40), ttl, now.Sub(l.issue).Round(time.Millisecond), now.Add(ttl).Sub(l.issue).Round(time.Second), l.effMax))
 			}
@@ -203,15 +209,45 @@ func TestVerif_C05_Leases(t *testing.T) {
 					data["explicit_max_ttl"] = "90m"
 					eff = 90 * time.Minute
 				}
+				path := "auth/token/create"
+				var period time.Duration
+				switch fairIndex(rt, "throughRole", 4) {
+				case 0:
+					// a role with an explicit maximum of its own; the caller may ask for a smaller or a larger one
+					path = "auth/token/create/c05max"
+					if eff > 40*time.Minute {
+						eff = 40 * time.Minute
+					}
+					switch fairIndex(rt, "callerExplicitMax", 3) {
+					case 0:
+						data["explicit_max_ttl"] = "2h"
+					case 1:
+						data["explicit_max_ttl"] = "25m"
+						if eff > 25*time.Minute {
+							eff = 25 * time.Minute
+						}
+					default:
+						if data["explicit_max_ttl"] == "90m" {
+							data["explicit_max_ttl"] = "2h"
+						}
+					}
+					delete(data, "period")
+				case 1:
+					// a periodic role with an explicit maximum; the caller asks for a longer period and maximum
+					path = "auth/token/create/c05per"
+					data["period"] = "2h"
+					data["explicit_max_ttl"] = "170m"
+					eff, period = 80*time.Minute, 30*time.Minute
+				}
 				before := time.Now()
-				r := w.tc.req(logical.UpdateOperation, "auth/token/create", w.tc.root, data)
+				r := w.tc.req(logical.UpdateOperation, path, w.tc.root, data)
 				if !r.ok() || r.resp == nil || r.resp.Auth == nil {
-					w.logf("token %v -> %v", data, r)
+					w.logf("token %s %v -> %v", path, data, r)
 					return
 				}
-				l := &c05Lease{id: "token", isToken: true, token: r.resp.Auth.ClientToken, issue: before, effMax: eff, renewable: true}
+				l := &c05Lease{id: "token", isToken: true, token: r.resp.Auth.ClientToken, issue: before, effMax: eff, renewable: true, period: period}
 				w.leases = append(w.leases, l)
-				w.logf("token %v -> ttl %v", data, r.resp.Auth.TTL)
+				w.logf("token %s %v -> ttl %v", path, data, r.resp.Auth.TTL)
 				checkBound(l, r.resp.Auth.TTL, "issue")
 			},
 			"renew": func(rt *rapid.T) {
